@@ -291,3 +291,53 @@ def unit_normalize_subspaces(timeout_ms=20000):
         eng.oblige("pair-is-(right,left)-in-that-order", z3.BoolVal(rights.items[1] is R and lefts.items[1] is L))
         eng.oblige("one-entry-per-subspace", z3.BoolVal(len(rights.items) == 2 and len(lefts.items) == 2))
     return run_unit("block_diagonalization:_normalize_subspace_eigenvectors", harness, functions=[(MODULE, "_normalize_subspace_eigenvectors")], timeout_ms=timeout_ms)
+
+
+def unit_preprocess_sylvester(timeout_ms=10000):
+    """_preprocess_sylvester(f).wrapped(Y, index): a legacy one-argument solver is used for the two off-diagonal blocks of a two-block problem only (ValueError for
+    every other block pair, before the solver is called); a BlockSeries argument is read at the requested index; the zero sentinel is answered with zero without
+    calling the solver; otherwise the solver's answer for exactly that value is returned."""
+    outer = frontend.find(MODULE, "_preprocess_sylvester")
+    inner = frontend.find(MODULE, "_preprocess_sylvester/wrapped")
+
+    def harness(eng):
+        calls, reads = [], []
+        i, j = eng.fresh("i"), eng.fresh("j")
+        eng.assume(z3.And(i >= 0, i <= 3, j >= 0, j <= 3))
+        # the membership test `index[:2] not in {(0, 1), (1, 0)}` is over concrete tuples: enumerate the block pair
+        pair = None
+        for a in range(4):
+            for b in range(4):
+                if pair is None and eng.branch(z3.And(i == a, j == b)):
+                    pair = (a, b)
+        if pair is None:
+            return
+        index = STup([pair[0], pair[1], SI(eng.fresh("order"))])
+        is_zero = eng.fresh("Y_is_zero", "bool")
+        is_series = eng.fresh("Y_is_a_BlockSeries", "bool")
+        elem = ZERO if eng.branch(is_zero) else Val("Y_value", ("ndarray",))
+
+        class Series(Model):
+            def m_isinstance(s, e, c):
+                return c == "BlockSeries"
+
+            def m_getitem(s, e, key):
+                reads.append(key)
+                return elem
+        Y = Series() if eng.branch(is_series) else elem
+        solver = Builtin("legacy_solver", lambda e, y: (calls.append(y), T("solution", y))[1])
+        eng.globals.update({"zero": ZERO, "BlockSeries": TypeObj("BlockSeries")})
+        env = Env(None, {"solve_sylvester": solver})
+        try:
+            res = eng.call(Closure(inner, env, "wrapped"), [Y, index], {})
+        except PyRaise as pr:
+            eng.oblige("raises-only-ValueError-for-a-block-pair-other-than-(0,1)-(1,0)", z3.BoolVal(pr.exc.cls == "ValueError" and pair not in ((0, 1), (1, 0)) and not calls), detail=f"{pair}: {pr.exc.cls}")
+            return
+        eng.oblige("accepts-only-the-two-offdiagonal-blocks-of-a-two-block-problem", z3.BoolVal(pair in ((0, 1), (1, 0))), detail=repr(pair))
+        if isinstance(Y, Series):
+            eng.oblige("series-argument-read-once-at-the-requested-index", z3.BoolVal(len(reads) == 1 and reads[0] is index))
+        if elem is ZERO:
+            eng.oblige("zero-answered-with-zero-without-calling-the-solver", z3.BoolVal(res is ZERO and not calls))
+        else:
+            eng.oblige("solver-called-once-with-the-value-and-its-answer-returned", z3.BoolVal(len(calls) == 1 and calls[0] is elem and isinstance(res, T) and res.args[0] is elem))
+    return run_unit("block_diagonalization:_preprocess_sylvester/wrapped", harness, functions=[(MODULE, "_preprocess_sylvester"), (MODULE, "_preprocess_sylvester/wrapped")], timeout_ms=timeout_ms)
